@@ -94,6 +94,7 @@ func (t CT) MES(env native.Env, s string) int { crEnv(env, "CT.MES"); return len
 func (t *CT) PM()                             { crHit("CT.PM") }
 func (t *CT) PME(env native.Env)              { crEnv(env, "CT.PME") }
 func (t CT) MEV(env native.Env, a ...int) int { crEnv(env, "CT.MEV"); return sum(a) + t.N }
+func (t CT) Call(f func())                    { f() }
 
 // CI is a native interface type, one of its methods takes the environment.
 type CI interface {
@@ -167,6 +168,9 @@ var callableDecls = native.Declarations{
 	"RetA":  func() func() { return func() { crHit("RetA.f") } },
 	"RetB":  func() func(string) int { return func(s string) int { crHit("RetB.f"); return len(s) } },
 
+	"PanicValue": func() { panic(42) },
+	"PanicStr":   func() { panic("native string") },
+
 	"FVarA":     &fvarA,
 	"FVarB":     &fvarB,
 	"CallFVarA": func() { fvarA() },
@@ -233,6 +237,7 @@ func (t CT) MES(s string) int    { Hit("CT.MES"); return len(s) + t.N }
 func (t *CT) PM()                { Hit("CT.PM") }
 func (t *CT) PME()               { Hit("CT.PME") }
 func (t CT) MEV(a ...int) int    { Hit("CT.MEV"); return sum(a) + t.N }
+func (t CT) Call(f func())       { f() }
 
 type CI interface {
 	M()
@@ -298,6 +303,9 @@ var (
 	FVarA = func() { Hit("FVarA") }
 	FVarB = func(s string) int { Hit("FVarB"); return len(s) }
 )
+
+func PanicValue() { panic(42) }
+func PanicStr()   { panic("native string") }
 
 func CallFVarA()            { FVarA() }
 func CallFVarB(s string) int { return FVarB(s) }
